@@ -554,19 +554,17 @@ def gen_tu(t, tier, rng):
         for seq in sequences(t):
             n = len(seq)
             if n == 1:
-                k = 8 if quick else 20
+                k = 16 if quick else 40
             elif n == 2:
-                k = 3 if quick else 8
+                k = 6 if quick else 12
             else:
-                k = 2 if quick else 4
+                k = 3 if quick else 6
             if t['name'].startswith('h_c10_ap'):
                 if n == 1:
                     continue
-                k = 2
+                k = 3
             if storage:
-                k = 1 if la in FIXED_LEAVES and not quick else (2 if quick else 4)
-                if la in FIXED_LEAVES:
-                    k = 1 if quick else 2
+                k = 2 if la in FIXED_LEAVES else (6 if quick else 12)
             for j in range(k):
                 inst = instantiate(seq, rng, t['dtype'], t['b0'], leaf_shape=storage_leaf_shape(la, seq) if storage else None)
                 if inst is None:
